@@ -6,11 +6,11 @@ ROOT = os.path.dirname(os.path.dirname(os.path.abspath(__file__)))
 # id -> (engine, category, design_ref, technique, level text, level note)
 CLAIMED = {
  "C04": ("stacksim", "exploration", "DESIGN §5 C04",
-   "deterministic simulation: seeded operation histories on the real Stack vs a Vec+capacity reference model, with capacity-change / overrunning-iterator / huge-range fault injection, minimised replay",
+   "deterministic simulation: every history of 1..=4 operations enumerated, then seeded operation histories on the real Stack vs a Vec+capacity reference model, with capacity-change / overrunning-iterator / huge-range fault injection, minimised replay",
    "Seeded search over operation histories (<=40 ops, 14 op kinds, capacities 0..6/64/MAX, two element types) with the model compared after every operation; sampled, not exhaustive. Right level: the property quantifies over histories of any length and the defects of interest need a 2-3 step sequence (e.g. lower the maximum, then push).",
    "Trusted: the Vec+capacity model in sim/checks/src/bin/c04.rs; corners where the statement is silent are accepted either way (DESIGN §8)."),
  "C01": ("vmsim", "exploration", "DESIGN §5 C01",
-   "deterministic simulation: seeded Push programs run step by step on the real interpreter and refined against an independent reference interpreter (pushmodel), with capacity / step-budget / pause-rebuild-resume fault injection, real-loop cross-checks, long executions (30k steps) against a model-only run, deep nesting; findings that depend on hidden state are reported with a replayable call history",
+   "deterministic simulation: an enumerated small scope (every program of <= 5 nodes over <= 2 instructions, every int/float instruction on every pair of boundary literals) and seeded Push programs run step by step on the real interpreter and refined against an independent reference interpreter (pushmodel), with capacity / step-budget / pause-rebuild-resume fault injection, real-loop cross-checks, long executions (30k steps) against a model-only run, deep nesting; findings that depend on hidden state are reported with a replayable call history",
    "Refinement of the real VM against an executable model after every instruction step, over seeded programs covering every instruction variant, boundary literals, capacity regimes and step limits; sampled, not exhaustive. Right level: the statement quantifies over all programs, inputs and limits; the defects of interest need specific operand/stack configurations.",
    "Trusted: pushmodel (sim/checks/src/pushmodel.rs, written from the statement and the rustdoc action tables, no shared helpers with the implementation); allowed-outcome sets are widened exactly where the statement is silent (DESIGN §8)."),
  "C02": ("vmsim", "fault_enumeration", "DESIGN §5 C02",
@@ -18,7 +18,7 @@ CLAIMED = {
    "The (instruction x boundary-state) grid is enumerated completely on the real code with the model-free oracle 'Err => carried state == cloned pre-state'; in-flight faults and skip semantics are sampled with seeds. Right level: the quantifier is literally 'every point at which underflow or overflow can strike'.",
    "Trusted: derived PartialEq of PushState as the notion of 'identical state'; stack values inside a grid cell are sampled from boundary pools."),
  "C03": ("vmsim", "exploration", "DESIGN §5 C03",
-   "deterministic simulation: loop/growth-biased programs under resource exhaustion, bounded-liveness (returns within L steps, watchdog) and safety invariants at every step boundary, limit sweeps against the stepped run",
+   "deterministic simulation: the enumerated small scope of C01 plus seeded loop/growth-biased programs under resource exhaustion, bounded-liveness (returns within L steps, watchdog) and safety invariants at every step boundary, limit sweeps against the stepped run",
    "Seeded search over growth-biased programs x capacities x step-limit sweeps; monitored invariants: returns without panic/hang, Err only for overflow exactly where the model says a stack would overflow, sizes <= maxima, state(L) == stepped state(min(L,T)). Sampled.",
    "Trusted: pushmodel for 'would overflow'; nesting depth bounded (stated in evidence assumptions)."),
  "C10": ("rngsim", "exploration", "DESIGN §5 C10",
@@ -46,11 +46,11 @@ CLAIMED = {
    "The flavour set (7 pointers x 4 auto-trait combinations x 5 traits) is enumerated completely per scenario; wrapped implementations, arguments and streams are seeded.",
    "Trusted: Display + source() chain as 'the same error'; Debug text / pointer position as 'the same result'."),
  "C07": ("rngsim", "exploration", "DESIGN §5 C07",
-   "deterministic simulation through the rng seam: exact invariants per seeded/adversarial run (maximality, k distinct entrants observed through a comparison-logging Ord) plus a seeded many-run statistical decision of the entrant-subset and winner-rank laws against exact probabilities",
+   "deterministic simulation through the rng seam: every population of <= 5 over {0,1,2} enumerated; exact invariants per seeded/adversarial run (maximality, k distinct entrants observed through a comparison-logging Ord) plus a seeded many-run statistical decision of the entrant-subset and winner-rank laws against exact probabilities",
    "Exact clauses are decided on every run; the distributional clause is sampling evidence: every k-subset frequency vs 1/C(n,k) and every rank's winning frequency vs C(r-1,k-1)/C(n,k) for all n <= 6 (quick) / 7 (thorough), k <= n.",
    "Trusted: the exact reference law computed in the check; statistical decisions use the Chernoff-KL rule with a total false-alarm budget of 1e-9 per invocation (fixed default seed => outcome is a fixed function of the code); biases below the resolution reported in the evidence are invisible."),
  "C08": ("rngsim", "exploration", "DESIGN §5 C08",
-   "deterministic simulation through the rng seam: exact support clauses per seeded/adversarial run (winner survives some case order, never Pareto-dominated) plus seeded many-run statistical decision of every individual's selection frequency against the exact law obtained by enumerating all case orders",
+   "deterministic simulation through the rng seam: every small result matrix enumerated, fixed and seeded distribution experiments; exact support clauses per seeded/adversarial run (winner survives some case order, never Pareto-dominated) plus seeded many-run statistical decision of every individual's selection frequency against the exact law obtained by enumerating all case orders",
    "Exact law by enumeration of all c! orders on small tie-heavy matrices (most of them order-sensitive by construction); frequencies decided statistically; support violations exact.",
    "Trusted: the exact reference law computed in the check; statistical decisions use the Chernoff-KL rule with a total false-alarm budget of 1e-9 per invocation (fixed default seed => outcome is a fixed function of the code); biases below the resolution reported in the evidence are invisible."),
  "C12": ("rngsim", "exploration", "DESIGN §5 C12",
@@ -58,7 +58,7 @@ CLAIMED = {
    "Purely distributional property => sampling evidence with an explicit, rigorous error budget; 212 experiments x 3*10^5 (quick) / 5*10^6 (thorough) trials (fewer for genomes of 10^4..10^7 genes, more for instruction sets of 10^5..10^6).",
    "Trusted: the exact reference law computed in the check; statistical decisions use the Chernoff-KL rule with a total false-alarm budget of 1e-9 per invocation (fixed default seed => outcome is a fixed function of the code); biases below the resolution reported in the evidence are invisible."),
  "C13": ("rngsim", "exploration", "DESIGN §5 C13",
-   "deterministic simulation through the rng seam with marker member selectors: exact clauses per seeded/adversarial run (exactly one delegate, never a weight-0 member, zero-weight errors, build-time overflow with the right fields) plus seeded statistical decision of each member's use frequency against w_i/sum over tree shapes, with_item_and_weight chains and DynWeighted lists",
+   "deterministic simulation through the rng seam (every weight vector over {0,1,2,5} of <= 4 members enumerated; fixed and seeded distribution experiments) with marker member selectors: exact clauses per seeded/adversarial run (exactly one delegate, never a weight-0 member, zero-weight errors, build-time overflow with the right fields) plus seeded statistical decision of each member's use frequency against w_i/sum over tree shapes, with_item_and_weight chains and DynWeighted lists",
    "Exact clauses decided on every run over arbitrary tree shapes whose inner nodes are the real WeightedPair; proportionality is sampling evidence.",
    "Trusted: the exact reference law computed in the check; statistical decisions use the Chernoff-KL rule with a total false-alarm budget of 1e-9 per invocation (fixed default seed => outcome is a fixed function of the code); biases below the resolution reported in the evidence are invisible."),
  "C18": ("rngsim", "exploration", "DESIGN §5 C18",
